@@ -121,27 +121,68 @@ def badParamsOutcome : CallOutcome := { dispatched := true, respError := true, h
 
 /-! ### HTTP -/
 
-def httpUnaryOutcome (m : UMethod) (lvl rid : Bytes) (s : UnaryScript) : CallOutcome :=
-  let r := handleUnary m lvl rid s
-  { dispatched := true, respError := r.1.errorHeader || hasExc r.1.body.batches, handlerErr := r.2.isSome }
+/-- Server-side response caps of the HTTP transport that the histories exercise (all off by
+default): `wireCap` = `SetMaxResponseBytes(1)` (every non-empty body overshoots; hard for unary
+and exchange), `extCap` = external storage configured with threshold 1 and
+`SetMaxExternalizedResponseBytes(1)` (every data batch with at least one row is refused before
+any upload). -/
+inductive HttpCfg | plain | wireCap | extCap
+  deriving Repr, DecidableEq
 
-/-- `runProduceLoop`: turns from cursor `k` until the state finishes, a turn fails, or `fuel`
-(= `producerBatchLimit` − data batches so far, limit > 0) data batches have been written. -/
+def capFail : CallOutcome := { dispatched := true, respError := true, handlerErr := true }
+
+/-- `handleUnary`: the handler's own failure, else the pre-flight external cap (valued results
+only: a void response has no rows), else the post-flush wire cap. -/
+def httpUnaryOutcome (cfg : HttpCfg) (m : UMethod) (lvl rid : Bytes) (s : UnaryScript) : CallOutcome :=
+  let r := handleUnary m lvl rid s
+  if r.2.isSome then
+    { dispatched := true, respError := r.1.errorHeader || hasExc r.1.body.batches, handlerErr := true }
+  else match cfg with
+    -- a void response is written and returned before either cap is looked at
+    | .extCap => if m.isVoid then { dispatched := true, respError := false, handlerErr := false } else capFail
+    | .wireCap => if m.isVoid then { dispatched := true, respError := false, handlerErr := false } else capFail
+    | .plain => { dispatched := true, respError := r.1.errorHeader || hasExc r.1.body.batches, handlerErr := false }
+
+/-- A result that cannot be serialized (`serializeResult` fails, or the handler failed before):
+both transports answer one error batch and hand the error to the hook. -/
+def serializationErrorOutcome : CallOutcome := { dispatched := true, respError := true, handlerErr := true }
+
+/-- Calls that are refused AFTER the hook was started and before the handler runs: lost sticky
+session, protocol-version mismatch (HTTP), stream-init parameters that do not deserialize. -/
+def refusedAfterStartOutcome : CallOutcome := { dispatched := true, respError := true, handlerErr := true }
+
+/-- The protocol-version gate of the pipe transport sits BEFORE the hook. -/
+def pipeVersionRefusedOutcome : CallOutcome := { dispatched := false, respError := true, handlerErr := false }
+
+/-- The data batch a collector holds has at least one row (`predictExternalizeBytes` > 0 with
+threshold 1). Value tokens of zero-row batches are `rows=0[…]`. -/
+def Collector.dataNonEmpty (c : Collector) : Bool :=
+  c.batches.any fun b => match b with
+    | .data v _ => !(v.startsWith "rows=0[")
+    | _ => false
+
+/-- `runProduceLoop`: turns from cursor `k` until the state finishes, a turn fails, the external
+cap refuses a data batch, or `fuel` (= `producerBatchLimit` − data batches so far, limit > 0)
+data batches have been written. -/
 structure ProduceOut where
   finished : Bool
   err : Option SrvErr
   cursor : Nat            -- the state's cursor afterwards
   deriving Repr, DecidableEq
 
-def produceLoop (s : StreamScript) : Nat → Nat → ProduceOut
+/-- "Externalised payload exceeds max_externalized_response_bytes" / "HTTP body exceeds max_response_bytes" -/
+def fwCap : SrvErr := ⟨[0xff, 0xfe, 8]⟩
+
+def produceLoop (s : StreamScript) (extCap : Bool) : Nat → Nat → ProduceOut
   | 0, k => { finished := false, err := none, cursor := k }          -- batch limit reached
   | fuel + 1, k =>
     match runTurn true (natToken k) (s.turnAt k) with
     | (_, some e) => { finished := false, err := some e, cursor := k + 1 }
     | (c, none) =>
       if !c.finished && !c.hasData then { finished := false, err := some fwNoData, cursor := k + 1 }
+      else if extCap && c.dataNonEmpty then { finished := false, err := some fwCap, cursor := k + 1 }
       else if c.finished then { finished := true, err := none, cursor := k + 1 }
-      else produceLoop s fuel (k + 1)
+      else produceLoop s extCap fuel (k + 1)
 
 /-- "state token encode: gob: type not registered for interface" -/
 def fwTokenEncode : SrvErr := ⟨[0xff, 0xfe, 7]⟩
@@ -156,33 +197,37 @@ structure HttpStreamOut where
 def httpFail : HttpStreamOut :=
   { outcome := { dispatched := true, respError := true, handlerErr := true }, token := none }
 
+def httpOk (token : Option Nat) : HttpStreamOut :=
+  { outcome := { dispatched := true, respError := false, handlerErr := false }, token := token }
+
 /-- The tail shared by `/init` (producer) and a producer continuation: the produce loop, then the
 continuation token when the batch limit stopped it. `encodable`: the state's concrete type is
 gob-registered (a state decoded from a token always is). -/
-def producerResponse (s : StreamScript) (limit k : Nat) (encodable : Bool) : HttpStreamOut :=
-  let r := produceLoop s limit k
+def producerResponse (cfg : HttpCfg) (s : StreamScript) (limit k : Nat) (encodable : Bool) : HttpStreamOut :=
+  let r := produceLoop s (cfg == .extCap) limit k
   match r.err with
   | some _ => httpFail                                   -- error batch written inside the stream
   | none =>
-    if r.finished then
-      { outcome := { dispatched := true, respError := false, handlerErr := false }, token := none }
-    else if encodable then
-      { outcome := { dispatched := true, respError := false, handlerErr := false }, token := some r.cursor }
+    if r.finished then httpOk none
+    else if encodable then httpOk (some r.cursor)
     else httpFail                                         -- token packing failed: error batch appended
 
+/-- The script's way of returning a header whose serialization fails. -/
+def badHeader : String := "BAD"
+
 /-- `handleStreamInit` after the hook is started (parameters deserialize). -/
-def httpInit (m : SMethod) (limit : Nat) (s : StreamScript) (encodable : Bool) : HttpStreamOut :=
+def httpInit (cfg : HttpCfg) (m : SMethod) (limit : Nat) (s : StreamScript) (encodable : Bool) : HttpStreamOut :=
   match s.init with
   | .fail _ => httpFail
   | .panic _ => httpFail
   | .nilResult => httpFail
-  | .ok st _ _ _ =>
+  | .ok st _ header _ =>
     match decideMode m.typ st with
     | none => httpFail
-    | some true => producerResponse s limit 0 encodable
-    | some false =>
-      if encodable then
-        { outcome := { dispatched := true, respError := false, handlerErr := false }, token := some 0 }
+    | some isProducer =>
+      if m.hasHeader && header == some badHeader then httpFail     -- writeStreamHeader fails
+      else if isProducer then producerResponse cfg s limit 0 encodable
+      else if encodable then httpOk (some 0)                        -- token only; no cap applies
       else httpFail
 
 /-- What the client sends to `/exchange`. -/
@@ -198,24 +243,36 @@ def httpCasted (m : SMethod) (src : Schema) (v : String) (lib : Option String) :
   | some tgt => castInput src tgt v lib
   | none => .ok v
 
+/-- The cast a DYNAMIC exchange stream applies, after the hook was started, against the input
+schema its init declared (`StreamResult.InputSchema`, carried in the call token). -/
+def httpDeclaredCast (m : SMethod) (declared : Option Schema) (src : Schema) (v : String)
+    (lib : Option String) : Except SrvErr String :=
+  match declared with
+  | some tgt => if m.typ = .dynamic then castInput src tgt v lib else .ok v
+  | none => .ok v
+
 /-- `handleStreamExchange` for a client holding a token with cursor `k`. An input batch that does
-not cast to the registered input schema is refused (400) before the hook is started. -/
-def httpExchange (m : SMethod) (limit : Nat) (s : StreamScript) (isProducer : Bool) (k : Nat)
-    (src : Schema) (inp : HttpInput) : HttpStreamOut :=
+not cast to the REGISTERED input schema is refused (400) before the hook is started; one that
+does not cast to a dynamic stream's DECLARED schema is refused after. -/
+def httpExchange (cfg : HttpCfg) (m : SMethod) (limit : Nat) (s : StreamScript) (isProducer : Bool)
+    (declared : Option Schema) (k : Nat) (src : Schema) (inp : HttpInput) : HttpStreamOut :=
   match inp with
-  | .cancel =>
-    -- handleStreamCancel: OnCancel (errors/panics swallowed), empty stream, nil handlerErr
-    { outcome := { dispatched := true, respError := false, handlerErr := false }, token := none }
+  | .cancel => httpOk none     -- handleStreamCancel: OnCancel (errors/panics swallowed), empty stream
   | .data v lib =>
     match httpCasted m src v lib with
     | .error _ => { outcome := { dispatched := false, respError := true, handlerErr := false }, token := none }
-    | .ok inVal =>
-      if isProducer then producerResponse s limit k true
+    | .ok v1 =>
+      if isProducer then producerResponse cfg s limit k true
       else
-        match runTurn false inVal (s.turnAt k) with
-        | (_, some _) => httpFail
-        | (c, none) =>
-          if !c.hasData then httpFail                      -- validate(): no data batch
-          else { outcome := { dispatched := true, respError := false, handlerErr := false }, token := some (k + 1) }
+        match httpDeclaredCast m declared src v1 lib with
+        | .error _ => httpFail
+        | .ok inVal =>
+          match runTurn false inVal (s.turnAt k) with
+          | (_, some _) => httpFail
+          | (c, none) =>
+            if !c.hasData then httpFail                      -- validate(): no data batch
+            else if cfg == .extCap && c.dataNonEmpty then httpFail   -- checkExternalBudget
+            else if cfg == .wireCap then httpFail             -- enforceResponseBudgets (hard for exchange)
+            else httpOk (some (k + 1))
 
 end Vgi.Script
